@@ -46,6 +46,7 @@ PROPS = {
             {'template': 'units/c05_stdlib_strings.rs.in', 'modes': [['MODE_OK'], ['MODE_ERR']], 'canary': True},
             {'template': 'units/c05_emit.rs.in', 'modes': [[]], 'canary': True},
             {'template': 'units/c05_parse_slice.rs.in', 'modes': [[]], 'canary': True},
+            {'template': 'units/c05_lower.rs.in', 'modes': [[]], 'canary': True},
         ],
         'kani': [{'name': 'c05', 'jobs': 4, 'timeout': 1500}],
         # the parser's slice syntax and the lowering of Index/Slice produce and consume syntax trees through `&mut self`
@@ -54,8 +55,8 @@ PROPS = {
         'bounded_standins': [
             {'oracle': 'incan::emit_range', 'cases': 155, 'function': 'emit_range_call (call site of the runtime range) and the lowering of for loops over range',
              'bound': 'exhaustive over range(e), range(s, e), range(s, e, k) x {variable, 0, negative literal, 2, expression} per written argument; one fixed program shape; checks argument positions and the defaults 0 / 1 in the generated call'},
-            {'oracle': 'incan::emit_slice', 'cases': 271, 'function': 'parser index_or_slice/parse_slice, lowering of Index/Slice, emit_index_expr, emit_slice_expr',
-             'bound': 'exhaustive over str/list target x {omitted, variable, 0, -1} start x same end x {omitted, variable, -1, 2} step x compact/spaced spelling, plus 4 index reads, 4 element assignments (list_get_mut) a dict read (dict_get), a nested index `grid[r][c]` and a dict compound assignment; one fixed program shape; checks the helper and the position of every bound in the generated call'},
+            {'oracle': 'incan::emit_slice', 'cases': 279, 'function': 'parser index_or_slice/parse_slice, lowering of Index/Slice, emit_index_expr, emit_slice_expr',
+             'bound': 'exhaustive over str/list target x {omitted, variable, 0, -1} start x same end x {omitted, variable, -1, 2} step x compact/spaced spelling, plus 4 index reads, 4 element assignments (list_get_mut) a dict read (dict_get), a nested index `grid[r][c]`, a dict compound assignment and 8 reads whose object is a field or a call result (`b.xs[st]`, `word()[st:]`, ..); one fixed program shape; checks the helper and the position of every bound in the generated call'},
         ],
         'pins': [
             ('stdlib::str_index', {'s': 'héllo', 'i': 5}), ('stdlib::str_index', {'s': 'héllo', 'i': -6}), ('stdlib::str_index', {'s': 'héllo', 'i': -4}),
@@ -69,7 +70,7 @@ PROPS = {
             ('core::str_char_at', {'s': 'abc', 'i': 3}), ('core::str_slice', {'s': 'abc', 'start': 1, 'end': None, 'step': 0}),
         ],
         'not_covered': [
-            'the lexer (`::` inside brackets, see the known finding) and the lowering of Index / Slice / range calls to IR (recursive descent over syntax trees); in the parser the recursive expression() and in the emitter the recursive emit_expr of the operands are assumed contracts; quote! is modelled by its literal tokens and spliced values (trusted)',
+            'the lexer (`::` inside brackets, see the known finding), the lowering of range calls and of the sub-expressions of an index / slice (recursive descent over syntax trees); in the parser the recursive expression() and in the emitter the recursive emit_expr of the operands are assumed contracts; quote! is modelled by its literal tokens and spliced values (trusted)',
             'HashMap\'s own behaviour is vstd\'s model (obeys_key_model)',
         ],
         'assumptions': [
@@ -86,10 +87,12 @@ PROPS = {
             {'template': 'units/c07_compound_tables.rs.in', 'modes': [[]], 'canary': True},
             {'template': 'units/c07_compound_check.rs.in', 'modes': [[]], 'canary': True},
             {'template': 'units/c07_lower.rs.in', 'modes': [[]], 'canary': True},
+            {'template': 'units/c07_compat.rs.in', 'modes': [[]], 'canary': True},
+            {'template': 'units/c07_check_assign.rs.in', 'modes': [[]], 'canary': True},
         ],
         'kani': [],
         'not_covered': [
-            'const_eval\'s use of the policy; in check_binary the recursive check_expr of the operands and types_compatible are assumed contracts; in the compound-assignment arms (checker, lowering) and the Binary arm of the lowering the scope lookup and the check/lowering of the operand expressions are assumed contracts',
+            'const_eval\'s use of the policy; the checker\'s call-argument position (known finding); in check_binary / check_assignment / check_return the recursive check_expr of the operands, resolve_type and the symbol table are assumed contracts (types_compatible is proved on int / float in c07_compat); in the compound-assignment arms (checker, lowering) and the Binary arm of the lowering the scope lookup and the check/lowering of the operand expressions are assumed contracts',
             'in emit_binop_expr the recursive emit_expr of the operands is an assumed contract; quote! is modelled by its literal tokens and spliced values (trusted)',
         ],
         # functions that cannot be brought within the verifier's reach (methods on the checker's state): a bounded
